@@ -14,22 +14,199 @@ COMMON = r'''
 #ifndef VF_CAP
 #define VF_CAP 8          /* capacity of locally created containers (model bound) */
 #endif
+/* A spec may `#define VF_SEQ_EXACT <N>` before including gen.h: vf_seq find/erase then are exact (their loops have a
+   constant trip count N and no loop contract; an assertion checks that lengths stay <= N). Default: loop contracts
+   that only keep indices in range (element values after erase, first-occurrence of find are then unknown).
+   `#define VF_SET_EXACT <N>` does the same for vf_set find/erase (and hence insert/count/contains). */
 #ifndef VF_ICAP
 #define VF_ICAP 4         /* capacity of every boost::intrusive::list model (model bound) */
 #endif
 typedef void (*vf_fnptr)(void);
 typedef long vf_str;        /* opaque string id: equality only */
+typedef int vf_excptr;      /* std::exception_ptr: kind of the stored exception (0 = null, else a VF_EXC_* constant) */
 #define VF_STR_EMPTY ((vf_str)0)
 struct vf_fn { vf_fnptr fn; void* env; };
+struct vf_lock { _Bool owns; }; /* std::unique_lock / lock_guard: ownership flag only, locking is not modelled */
 struct vf_mt19937 { unsigned long opaque_state; }; /* std::mt19937: only its operator() (assumed callee) is used */
 extern int vf_exc;          /* 0 = no exception in flight; VF_EXC_* otherwise (exception model) */
 #define VF_EXC_ABORT 1
 #define VF_ABORT() (vf_exc = VF_EXC_ABORT)
+#define VF_CMP3(a, b) ((a) < (b) ? -1 : ((a) > (b) ? 1 : 0)) /* builtin operator<=> ; std::strong_ordering -> int */
 #ifdef VF_CANARY
 #define VF_CANARY_POINT __CPROVER_assert(0, "vf canary: must fail (the call returns under its precondition)")
 #else
 #define VF_CANARY_POINT ((void)0)
 #endif
+vf_str nondet_vf_str(void);
+#ifndef VF_STRLIT
+#define VF_STRLIT(s) nondet_vf_str() /* string literal: an arbitrary id (string contents are outside the subset) */
+#endif
+/* constant-trip loops of the models, unrolled by the preprocessor (goto-instrument --dfcc --apply-loop-contracts rejects
+   writes to the counter of a loop that has no loop contract): VF_FOR_CAP(stmt using i) runs stmt for i = 0 .. VF_CAP-1 */
+#if VF_CAP > 32
+#error "VF_CAP > 32: extend VF_FOR_CAP in cxx2c/models.py"
+#endif
+#if VF_CAP > 0
+#define VF_U0(...) { const size_t i = 0; __VA_ARGS__; }
+#else
+#define VF_U0(...)
+#endif
+#if VF_CAP > 1
+#define VF_U1(...) { const size_t i = 1; __VA_ARGS__; }
+#else
+#define VF_U1(...)
+#endif
+#if VF_CAP > 2
+#define VF_U2(...) { const size_t i = 2; __VA_ARGS__; }
+#else
+#define VF_U2(...)
+#endif
+#if VF_CAP > 3
+#define VF_U3(...) { const size_t i = 3; __VA_ARGS__; }
+#else
+#define VF_U3(...)
+#endif
+#if VF_CAP > 4
+#define VF_U4(...) { const size_t i = 4; __VA_ARGS__; }
+#else
+#define VF_U4(...)
+#endif
+#if VF_CAP > 5
+#define VF_U5(...) { const size_t i = 5; __VA_ARGS__; }
+#else
+#define VF_U5(...)
+#endif
+#if VF_CAP > 6
+#define VF_U6(...) { const size_t i = 6; __VA_ARGS__; }
+#else
+#define VF_U6(...)
+#endif
+#if VF_CAP > 7
+#define VF_U7(...) { const size_t i = 7; __VA_ARGS__; }
+#else
+#define VF_U7(...)
+#endif
+#if VF_CAP > 8
+#define VF_U8(...) { const size_t i = 8; __VA_ARGS__; }
+#else
+#define VF_U8(...)
+#endif
+#if VF_CAP > 9
+#define VF_U9(...) { const size_t i = 9; __VA_ARGS__; }
+#else
+#define VF_U9(...)
+#endif
+#if VF_CAP > 10
+#define VF_U10(...) { const size_t i = 10; __VA_ARGS__; }
+#else
+#define VF_U10(...)
+#endif
+#if VF_CAP > 11
+#define VF_U11(...) { const size_t i = 11; __VA_ARGS__; }
+#else
+#define VF_U11(...)
+#endif
+#if VF_CAP > 12
+#define VF_U12(...) { const size_t i = 12; __VA_ARGS__; }
+#else
+#define VF_U12(...)
+#endif
+#if VF_CAP > 13
+#define VF_U13(...) { const size_t i = 13; __VA_ARGS__; }
+#else
+#define VF_U13(...)
+#endif
+#if VF_CAP > 14
+#define VF_U14(...) { const size_t i = 14; __VA_ARGS__; }
+#else
+#define VF_U14(...)
+#endif
+#if VF_CAP > 15
+#define VF_U15(...) { const size_t i = 15; __VA_ARGS__; }
+#else
+#define VF_U15(...)
+#endif
+#if VF_CAP > 16
+#define VF_U16(...) { const size_t i = 16; __VA_ARGS__; }
+#else
+#define VF_U16(...)
+#endif
+#if VF_CAP > 17
+#define VF_U17(...) { const size_t i = 17; __VA_ARGS__; }
+#else
+#define VF_U17(...)
+#endif
+#if VF_CAP > 18
+#define VF_U18(...) { const size_t i = 18; __VA_ARGS__; }
+#else
+#define VF_U18(...)
+#endif
+#if VF_CAP > 19
+#define VF_U19(...) { const size_t i = 19; __VA_ARGS__; }
+#else
+#define VF_U19(...)
+#endif
+#if VF_CAP > 20
+#define VF_U20(...) { const size_t i = 20; __VA_ARGS__; }
+#else
+#define VF_U20(...)
+#endif
+#if VF_CAP > 21
+#define VF_U21(...) { const size_t i = 21; __VA_ARGS__; }
+#else
+#define VF_U21(...)
+#endif
+#if VF_CAP > 22
+#define VF_U22(...) { const size_t i = 22; __VA_ARGS__; }
+#else
+#define VF_U22(...)
+#endif
+#if VF_CAP > 23
+#define VF_U23(...) { const size_t i = 23; __VA_ARGS__; }
+#else
+#define VF_U23(...)
+#endif
+#if VF_CAP > 24
+#define VF_U24(...) { const size_t i = 24; __VA_ARGS__; }
+#else
+#define VF_U24(...)
+#endif
+#if VF_CAP > 25
+#define VF_U25(...) { const size_t i = 25; __VA_ARGS__; }
+#else
+#define VF_U25(...)
+#endif
+#if VF_CAP > 26
+#define VF_U26(...) { const size_t i = 26; __VA_ARGS__; }
+#else
+#define VF_U26(...)
+#endif
+#if VF_CAP > 27
+#define VF_U27(...) { const size_t i = 27; __VA_ARGS__; }
+#else
+#define VF_U27(...)
+#endif
+#if VF_CAP > 28
+#define VF_U28(...) { const size_t i = 28; __VA_ARGS__; }
+#else
+#define VF_U28(...)
+#endif
+#if VF_CAP > 29
+#define VF_U29(...) { const size_t i = 29; __VA_ARGS__; }
+#else
+#define VF_U29(...)
+#endif
+#if VF_CAP > 30
+#define VF_U30(...) { const size_t i = 30; __VA_ARGS__; }
+#else
+#define VF_U30(...)
+#endif
+#if VF_CAP > 31
+#define VF_U31(...) { const size_t i = 31; __VA_ARGS__; }
+#else
+#define VF_U31(...)
+#endif
+#define VF_FOR_CAP(...) { VF_U0(__VA_ARGS__) VF_U1(__VA_ARGS__) VF_U2(__VA_ARGS__) VF_U3(__VA_ARGS__) VF_U4(__VA_ARGS__) VF_U5(__VA_ARGS__) VF_U6(__VA_ARGS__) VF_U7(__VA_ARGS__) VF_U8(__VA_ARGS__) VF_U9(__VA_ARGS__) VF_U10(__VA_ARGS__) VF_U11(__VA_ARGS__) VF_U12(__VA_ARGS__) VF_U13(__VA_ARGS__) VF_U14(__VA_ARGS__) VF_U15(__VA_ARGS__) VF_U16(__VA_ARGS__) VF_U17(__VA_ARGS__) VF_U18(__VA_ARGS__) VF_U19(__VA_ARGS__) VF_U20(__VA_ARGS__) VF_U21(__VA_ARGS__) VF_U22(__VA_ARGS__) VF_U23(__VA_ARGS__) VF_U24(__VA_ARGS__) VF_U25(__VA_ARGS__) VF_U26(__VA_ARGS__) VF_U27(__VA_ARGS__) VF_U28(__VA_ARGS__) VF_U29(__VA_ARGS__) VF_U30(__VA_ARGS__) VF_U31(__VA_ARGS__) }
 '''
 
 SEQ = r'''
@@ -47,36 +224,121 @@ static inline void vf_seq_%(G)s_pop_back(struct vf_seq_%(G)s* s) { __CPROVER_ass
 static inline void vf_seq_%(G)s_clear(struct vf_seq_%(G)s* s) { s->n = 0; }
 static inline struct vf_seq_%(G)s vf_seq_%(G)s_make(void) { struct vf_seq_%(G)s s; s.d = (%(T)s*)malloc(sizeof(%(T)s) * VF_CAP); __CPROVER_assume(s.d != 0); s.h = 0; s.n = 0; s.cap = VF_CAP; return s; }
 static inline void vf_seq_%(G)s_push_front(struct vf_seq_%(G)s* s, %(T)s v) { __CPROVER_assume(s->h > 0); s->h--; s->d[s->h] = v; s->n++; }
+/* find / erase: unrolled over the model capacity (precise: first occurrence; order-preserving shift) */
 static inline %(T)s* vf_seq_%(G)s_find_in(%(T)s* b, %(T)s* e, %(T)s v)
 {
   size_t cnt = (size_t)(e - b);
+#ifdef VF_SEQ_EXACT /* exact variant with a CHECKED bound (first occurrence is found): unrolled, no loop contract */
   size_t i = 0;
-  while (i < cnt && !(%(EQ)s))
-    __CPROVER_assigns(i)
-    __CPROVER_loop_invariant(i <= cnt)
-    __CPROVER_decreases(cnt - i)
-  { i++; }
+  __CPROVER_assert(cnt <= VF_SEQ_EXACT, "vf_seq find: range within VF_SEQ_EXACT");
+/*EXACT_FIND*/
   return b + i;
+#else
+  __CPROVER_assume(cnt <= VF_CAP);
+  size_t r = cnt;
+  VF_FOR_CAP(if (i < cnt && r == cnt && (%(EQ)s)) r = i;)
+  return b + r;
+#endif
 }
 static inline %(T)s* vf_seq_%(G)s_erase(struct vf_seq_%(G)s* s, %(T)s* it)
 {
-  size_t i = (size_t)(it - (s->d + s->h));
-  __CPROVER_assert(i < s->n, "vf_seq erase in range");
-  for (size_t j = i; j + 1 < s->n; j++)
-    __CPROVER_assigns(j, __CPROVER_object_whole(s->d))
-    __CPROVER_loop_invariant(i <= j && j < s->n)
-    __CPROVER_decreases(s->n - j)
-  { s->d[s->h + j] = s->d[s->h + j + 1]; }
+  size_t idx = (size_t)(it - (s->d + s->h));
+  __CPROVER_assert(idx < s->n, "vf_seq erase in range");
+#ifdef VF_SEQ_EXACT /* exact variant with a CHECKED bound (the tail is shifted element by element) */
+  __CPROVER_assert(s->n <= VF_SEQ_EXACT, "vf_seq erase: length within VF_SEQ_EXACT");
+/*EXACT_ERASE*/
+#else
+  __CPROVER_assume(s->n <= VF_CAP);
+  VF_FOR_CAP(if (idx <= i && i + 1 < s->n) s->d[s->h + i] = s->d[s->h + i + 1];)
+#endif
   s->n--;
   return it;
 }
+/* insert / erase(first,last): exact for sequences of at most VF_CAP elements (constant-bound loops: the driver unwinds
+   them completely, see check.json "unwindset" when loop contracts are applied to the units) */
+static inline %(T)s* vf_seq_%(G)s_insert(struct vf_seq_%(G)s* s, %(T)s* it, %(T)s v)
+{
+  size_t i = (size_t)(it - (s->d + s->h));
+  __CPROVER_assert(i <= s->n, "vf_seq insert position in range");
+  __CPROVER_assert(s->n <= VF_CAP, "vf_seq within model capacity");
+  __CPROVER_assume(s->h + s->n < s->cap);
+  for (size_t j = VF_CAP; j > 0; j--) { if (j <= s->n && j > i) s->d[s->h + j] = s->d[s->h + j - 1]; }
+  s->d[s->h + i] = v;
+  s->n++;
+  return s->d + s->h + i;
+}
+static inline %(T)s* vf_seq_%(G)s_erase_range(struct vf_seq_%(G)s* s, %(T)s* first, %(T)s* last)
+{
+  size_t ia = (size_t)(first - (s->d + s->h));
+  size_t ib = (size_t)(last - (s->d + s->h));
+  __CPROVER_assert(ia <= ib && ib <= s->n, "vf_seq erase range in range");
+  __CPROVER_assert(s->n <= VF_CAP, "vf_seq within model capacity");
+  size_t k = ib - ia;
+  for (size_t j = 0; j < VF_CAP; j++) { if (j >= ia && j + k < s->n) s->d[s->h + j] = s->d[s->h + j + k]; }
+  s->n -= k;
+  return first;
+}
 '''
+
+EXACT_MAX = 16
+_find = "".join("#if VF_SEQ_EXACT > %d\n  if (i == %d && i < cnt && !(%%(EQ)s)) i = %d;\n#endif\n" % (j, j, j + 1) for j in range(EXACT_MAX))
+_erase = "".join("#if VF_SEQ_EXACT > %d\n  if (idx <= %d && %d < s->n) s->d[s->h + %d] = s->d[s->h + %d];\n#endif\n" % (j + 1, j, j + 1, j, j + 1) for j in range(EXACT_MAX))
+_guard = "#if VF_SEQ_EXACT > %d\n#error \"VF_SEQ_EXACT too large for the unrolled models\"\n#endif\n" % EXACT_MAX
+SEQ = SEQ.replace("/*EXACT_FIND*/\n", _guard + _find).replace("/*EXACT_ERASE*/\n", _erase)
 
 SEQ_EXTRA = r'''
 static inline struct vf_seq_%(G)s vf_seq_%(G)s_make_n(size_t n) { struct vf_seq_%(G)s s; __CPROVER_assume(n <= VF_CAP); s.d = (%(T)s*)calloc(VF_CAP, sizeof(%(T)s)); __CPROVER_assume(s.d != 0); s.h = 0; s.n = n; s.cap = VF_CAP; return s; }
-static inline struct vf_seq_%(G)s vf_seq_%(G)s_make_fill(size_t n, %(T)s v) { struct vf_seq_%(G)s s = vf_seq_%(G)s_make(); __CPROVER_assume(n <= VF_CAP); for (size_t i = 0; i < VF_CAP; i++) { if (i < n) s.d[i] = v; } s.n = n; return s; }
-static inline void vf_seq_%(G)s_resize(struct vf_seq_%(G)s* s, size_t n) { __CPROVER_assume(s->h + n <= s->cap); for (size_t i = 0; i < VF_CAP; i++) { if (s->n + i < n) memset(&s->d[s->h + s->n + i], 0, sizeof(%(T)s)); } s->n = n; }
-static inline struct vf_seq_%(G)s vf_seq_%(G)s_copy(const struct vf_seq_%(G)s* o) { struct vf_seq_%(G)s s = vf_seq_%(G)s_make(); __CPROVER_assume(o->n <= VF_CAP); for (size_t i = 0; i < VF_CAP; i++) { if (i < o->n) s.d[i] = o->d[o->h + i]; } s.n = o->n; return s; }
+static inline struct vf_seq_%(G)s vf_seq_%(G)s_make_fill(size_t n, %(T)s v) { struct vf_seq_%(G)s s = vf_seq_%(G)s_make(); __CPROVER_assume(n <= VF_CAP); VF_FOR_CAP(if (i < n) s.d[i] = v;) s.n = n; return s; }
+static inline void vf_seq_%(G)s_resize(struct vf_seq_%(G)s* s, size_t n) { __CPROVER_assume(s->h + n <= s->cap); VF_FOR_CAP(if (s->n + i < n) memset(&s->d[s->h + s->n + i], 0, sizeof(%(T)s));) s->n = n; }
+static inline void vf_seq_%(G)s_resize_fill(struct vf_seq_%(G)s* s, size_t n, %(T)s v) { __CPROVER_assume(n <= VF_CAP && s->h + n <= s->cap); VF_FOR_CAP(if (s->n <= i && i < n) s->d[s->h + i] = v;) s->n = n; }
+static inline void vf_seq_%(G)s_assign_fill(struct vf_seq_%(G)s* s, size_t n, %(T)s v) { __CPROVER_assume(n <= s->cap && n <= VF_CAP); s->h = 0; VF_FOR_CAP(if (i < n) s->d[i] = v;) s->n = n; }
+static inline struct vf_seq_%(G)s vf_seq_%(G)s_copy(const struct vf_seq_%(G)s* o) { struct vf_seq_%(G)s s = vf_seq_%(G)s_make(); __CPROVER_assume(o->n <= VF_CAP); VF_FOR_CAP(if (i < o->n) s.d[i] = o->d[o->h + i];) s.n = o->n; return s; }
+'''
+
+SEQ_FILL = r'''
+static inline void vf_seq_%(G)s_resize_fill_deep(struct vf_seq_%(G)s* s, size_t n, %(T)s v) { __CPROVER_assume(s->h + n <= s->cap); for (size_t i = s->n; i < n; i++) { s->d[s->h + i] = %(COPYV)s; } s->n = n; }
+'''
+
+# std::list::sort / unique on scalar elements (emitted only for the instances that use them). Insertion sort (stable, as
+# list::sort). The loops run over the LENGTH of the list (no loop contracts: they are unwound by the harness, with
+# unwinding assertions, to a bound the harness chooses).
+SEQ_SORT = r'''
+static inline void vf_seq_%(G)s_sort_asc(struct vf_seq_%(G)s* s)
+{
+  for (size_t i = 1; i < s->n; i++) { %(T)s v = s->d[s->h + i]; size_t j = i; while (j > 0 && v < s->d[s->h + j - 1]) { s->d[s->h + j] = s->d[s->h + j - 1]; j--; } s->d[s->h + j] = v; }
+}
+static inline void vf_seq_%(G)s_sort_desc(struct vf_seq_%(G)s* s)
+{
+  for (size_t i = 1; i < s->n; i++) { %(T)s v = s->d[s->h + i]; size_t j = i; while (j > 0 && v > s->d[s->h + j - 1]) { s->d[s->h + j] = s->d[s->h + j - 1]; j--; } s->d[s->h + j] = v; }
+}
+static inline void vf_seq_%(G)s_unique(struct vf_seq_%(G)s* s)
+{
+  size_t w = 0;
+  for (size_t i = 0; i < s->n; i++) { if (w == 0 || !(s->d[s->h + w - 1] == s->d[s->h + i])) { s->d[s->h + w] = s->d[s->h + i]; w++; } }
+  s->n = w;
+}
+'''
+
+
+# only for scalar element types (builtin <): std::min_element / max_element / sort on ranges of at most VF_CAP elements
+SEQ_SCALAR = r'''
+static inline %(T)s* vf_seq_%(G)s_min_element_in(%(T)s* b, %(T)s* e) { size_t cnt = (size_t)(e - b); __CPROVER_assume(cnt <= VF_CAP); size_t best = 0; for (size_t i = 1; i < VF_CAP; i++) { if (i < cnt && b[i] < b[best]) best = i; } return b + best; }
+static inline %(T)s* vf_seq_%(G)s_max_element_in(%(T)s* b, %(T)s* e) { size_t cnt = (size_t)(e - b); __CPROVER_assume(cnt <= VF_CAP); size_t best = 0; for (size_t i = 1; i < VF_CAP; i++) { if (i < cnt && b[best] < b[i]) best = i; } return b + best; }
+static inline void vf_seq_%(G)s_sort_in(%(T)s* b, %(T)s* e, int desc)
+{ /* insertion sort: result is the sorted permutation (what std::sort guarantees for a strict weak order on scalars) */
+  size_t cnt = (size_t)(e - b);
+  __CPROVER_assume(cnt <= VF_CAP);
+  for (size_t i = 1; i < VF_CAP; i++) {
+    if (i < cnt) {
+      %(T)s v = b[i];
+      size_t j = i;
+      for (size_t k = 0; k < VF_CAP; k++) {
+        if (j > 0 && (desc ? (b[j - 1] < v) : (v < b[j - 1]))) { b[j] = b[j - 1]; j--; }
+      }
+      b[j] = v;
+    }
+  }
+}
 '''
 
 MINMAX = {
@@ -99,14 +361,20 @@ static inline void vf_set_%(G)s_clear(struct vf_set_%(G)s* s) { s->n = 0; }
 static inline %(T)s* vf_set_%(G)s_begin(struct vf_set_%(G)s* s) { return s->k; }
 static inline %(T)s* vf_set_%(G)s_end(struct vf_set_%(G)s* s) { return s->k + s->n; }
 static inline struct vf_set_%(G)s vf_set_%(G)s_make(void) { struct vf_set_%(G)s s; s.k = (%(T)s*)malloc(sizeof(%(T)s) * VF_CAP); __CPROVER_assume(s.k != 0); s.n = 0; s.cap = VF_CAP; return s; }
+static inline struct vf_set_%(G)s vf_set_%(G)s_copy(const struct vf_set_%(G)s* o) { struct vf_set_%(G)s s = vf_set_%(G)s_make(); __CPROVER_assume(o->n <= VF_CAP); for (size_t i = 0; i < VF_CAP; i++) { if (i < o->n) s.k[i] = o->k[i]; } s.n = o->n; return s; }
 static inline %(T)s* vf_set_%(G)s_find(struct vf_set_%(G)s* s, %(T)s v)
 {
   size_t i = 0;
+#ifdef VF_SET_EXACT /* exact variant with a CHECKED bound: unrolled, no loop contract (position of v, or n) */
+  __CPROVER_assert(s->n <= VF_SET_EXACT, "vf_set find: size within VF_SET_EXACT");
+/*SET_EXACT_FIND*/
+#else
   while (i < s->n && !(s->k[i] == v))
     __CPROVER_assigns(i)
     __CPROVER_loop_invariant(i <= s->n)
     __CPROVER_decreases(s->n - i)
   { i++; }
+#endif
   return s->k + i;
 }
 static inline size_t vf_set_%(G)s_count(struct vf_set_%(G)s* s, %(T)s v) { return vf_set_%(G)s_find(s, v) != s->k + s->n; }
@@ -117,15 +385,24 @@ static inline size_t vf_set_%(G)s_erase(struct vf_set_%(G)s* s, %(T)s v)
   %(T)s* p = vf_set_%(G)s_find(s, v);
   if (p == s->k + s->n) return 0;
   size_t i = (size_t)(p - s->k);
+#ifdef VF_SET_EXACT /* exact variant: the tail is shifted element by element (order of the other keys kept) */
+/*SET_EXACT_ERASE*/
+#else
   for (size_t j = i; j + 1 < s->n; j++)
     __CPROVER_assigns(j, __CPROVER_object_whole(s->k))
     __CPROVER_loop_invariant(i <= j && j < s->n)
     __CPROVER_decreases(s->n - j)
   { s->k[j] = s->k[j + 1]; }
+#endif
   s->n--;
   return 1;
 }
 '''
+
+_sfind = "".join("#if VF_SET_EXACT > %d\n  if (i == %d && i < s->n && !(s->k[i] == v)) i = %d;\n#endif\n" % (j, j, j + 1) for j in range(EXACT_MAX))
+_serase = "".join("#if VF_SET_EXACT > %d\n  if (i <= %d && %d < s->n) s->k[%d] = s->k[%d];\n#endif\n" % (j + 1, j, j + 1, j, j + 1) for j in range(EXACT_MAX))
+_sguard = "#if VF_SET_EXACT > %d\n#error \"VF_SET_EXACT too large for the unrolled models\"\n#endif\n" % EXACT_MAX
+SET = SET.replace("/*SET_EXACT_FIND*/\n", _sguard + _sfind).replace("/*SET_EXACT_ERASE*/\n", _serase)
 
 MAP = r'''
 /* ---- model of std::map/unordered_map<%(A)s,%(B)s>: distinct keys, entries e[0..n) ---- */
@@ -134,10 +411,17 @@ struct vf_map_%(G)s { struct vf_pair_%(G)s* e; size_t n; size_t cap; };
 static inline size_t vf_map_%(G)s_size(const struct vf_map_%(G)s* s) { return s->n; }
 static inline _Bool vf_map_%(G)s_empty(const struct vf_map_%(G)s* s) { return s->n == 0; }
 static inline void vf_map_%(G)s_clear(struct vf_map_%(G)s* s) { s->n = 0; }
+static inline struct vf_map_%(G)s vf_map_%(G)s_make(void) { struct vf_map_%(G)s s; s.e = (struct vf_pair_%(G)s*)malloc(sizeof(struct vf_pair_%(G)s) * VF_CAP); __CPROVER_assume(s.e != 0); s.n = 0; s.cap = VF_CAP; return s; }
 static inline struct vf_pair_%(G)s* vf_map_%(G)s_begin(struct vf_map_%(G)s* s) { return s->e; }
 static inline struct vf_pair_%(G)s* vf_map_%(G)s_end(struct vf_map_%(G)s* s) { return s->e + s->n; }
 static inline struct vf_pair_%(G)s* vf_map_%(G)s_find(struct vf_map_%(G)s* s, %(A)s k)
 {
+#ifdef VF_EXACT_MODELS /* exact for every map of at most VF_CAP entries: constant-bound loop, unwound completely */
+  size_t r = s->n;
+  __CPROVER_assert(s->n <= VF_CAP, "vf_map within model capacity");
+  for (size_t i = 0; i < VF_CAP; i++) { if (i < s->n && r == s->n && s->e[i].first == k) r = i; }
+  return s->e + r;
+#else
   size_t i = 0;
   while (i < s->n && !(s->e[i].first == k))
     __CPROVER_assigns(i)
@@ -145,6 +429,7 @@ static inline struct vf_pair_%(G)s* vf_map_%(G)s_find(struct vf_map_%(G)s* s, %(
     __CPROVER_decreases(s->n - i)
   { i++; }
   return s->e + i;
+#endif
 }
 static inline size_t vf_map_%(G)s_count(struct vf_map_%(G)s* s, %(A)s k) { return vf_map_%(G)s_find(s, k) != s->e + s->n; }
 static inline _Bool vf_map_%(G)s_contains(struct vf_map_%(G)s* s, %(A)s k) { return vf_map_%(G)s_find(s, k) != s->e + s->n; }
@@ -165,12 +450,18 @@ static inline void vf_map_%(G)s_insert(struct vf_map_%(G)s* s, %(A)s k, %(B)s v)
   struct vf_pair_%(G)s* p = vf_map_%(G)s_find(s, k);
   if (p == s->e + s->n) { __CPROVER_assume(s->n < s->cap); p->first = k; p->second = v; s->n++; }
 }
+static inline void vf_map_%(G)s_insert_pair(struct vf_map_%(G)s* s, struct vf_pair_%(G)s v) { vf_map_%(G)s_insert(s, v.first, v.second); }
 static inline void vf_map_%(G)s_set(struct vf_map_%(G)s* s, %(A)s k, %(B)s v) { *vf_map_%(G)s_index(s, k) = v; }
 static inline size_t vf_map_%(G)s_erase(struct vf_map_%(G)s* s, %(A)s k)
 {
   struct vf_pair_%(G)s* p = vf_map_%(G)s_find(s, k);
   if (p == s->e + s->n) return 0;
   size_t i = (size_t)(p - s->e);
+#ifdef VF_EXACT_MODELS
+  for (size_t j = 0; j + 1 < VF_CAP; j++) { if (j >= i && j + 1 < s->n) s->e[j] = s->e[j + 1]; }
+  s->n--;
+  return 1;
+#else
   for (size_t j = i; j + 1 < s->n; j++)
     __CPROVER_assigns(j, __CPROVER_object_whole(s->e))
     __CPROVER_loop_invariant(i <= j && j < s->n)
@@ -178,10 +469,17 @@ static inline size_t vf_map_%(G)s_erase(struct vf_map_%(G)s* s, %(A)s k)
   { s->e[j] = s->e[j + 1]; }
   s->n--;
   return 1;
+#endif
+}
+static inline struct vf_pair_%(G)s* vf_map_%(G)s_erase_it(struct vf_map_%(G)s* s, struct vf_pair_%(G)s* it)
+{
+  __CPROVER_assert(it != s->e + s->n, "vf_map erase(iterator): not end()");
+  vf_map_%(G)s_erase(s, it->first);
+  return it;
 }
 '''
 
-IHOOK = "struct vf_ihook { _Bool linked; }; /* boost::intrusive::list_member_hook<>: only is_linked() is observable */\n"
+IHOOK ="struct vf_ihook { _Bool linked; }; /* boost::intrusive::list_member_hook<>: only is_linked() is observable */\n"
 
 ILIST = r'''
 /* ---- model of boost::intrusive::list<%(S)s, member_hook<.., &%(S)s::%(H)s>>: the linked elements in list order are
@@ -270,6 +568,14 @@ def gen_funcs(tm, lib):
         eq = ("memcmp(&b[i], &v, sizeof(%s)) == 0" % t) if is_structy(t) else "b[i] == v"
         out.append((SEQ % {"G": tag, "T": t, "EQ": eq}).split("/*FUNCS*/")[1])
         out.append(SEQ_EXTRA % {"G": tag, "T": t})
+        if not is_structy(t) and not t.endswith("*"):
+            out.append(SEQ_SCALAR % {"G": tag, "T": t})
+        # resize(n, v): every new element is a COPY of v (a deep one when the elements are themselves sequences)
+        copyv = "vf_seq_%s_copy(&v)" % t[len("struct vf_seq_"):] if t.startswith("struct vf_seq_") else "v"
+        if t.startswith("struct vf_seq_"):
+            out.append(SEQ_FILL % {"G": tag, "T": t, "COPYV": copyv})
+        if ("seq_sort", tag) in lib.need:
+            out.append(SEQ_SORT % {"G": tag, "T": t})
     for tag, t in tm.set_insts.items():
         out.append((SET % {"G": tag, "T": t}).split("/*FUNCS*/")[1])
     for tag, (a, b) in tm.map_insts.items():
